@@ -99,12 +99,20 @@ def rule_schema(ck):
             ee = exg.expand(e)
             idx = {const_value(x.slice) for x in ast.walk(ee) if isinstance(x, ast.Subscript) and isinstance(x.value, ast.Name) and x.value.id == 'line'}
             (oo.ok('column %d' % want[slot]) if idx == {want[slot]} else oo.fail('the reader takes the %s from column(s) %s, the writer puts it in column %d' % (slot, sorted(idx), want[slot])))
+    rule_dialect(ck)
+
+
+def rule_dialect(ck, rule='C14-D1.dialect'):
+    """writer and readers of the CSEP ASCII form use csv with the same dialect"""
+    P = ck.prog
+    f = P.func(A + 'write_ascii')
+    w = calls_in(P, f, 'csv.DictWriter')
     # dialect agreement
     dial_w = {k.arg: u(k.value) for k in w[0].keywords if k.arg not in ('fieldnames',)} if w else {}
     for q in ('csep.utils.readers.csep_ascii', 'csep.core.catalogs.CSEPCatalog.load_ascii_catalogs'):
         r = P.func(q)
         rd = calls_in(P, r, 'csv.reader')
-        o = ck.ob('C14-D1.dialect', r, rd[0] if rd else 'csv.reader', rd[0] if rd else r.node)
+        o = ck.ob(rule, r, rd[0] if rd else 'csv.reader', rd[0] if rd else r.node)
         if len(rd) != 1:
             o.fail('%s does not read the file with csv.reader' % r.short)
             continue
@@ -112,6 +120,7 @@ def rule_schema(ck):
         (o.ok('dialect %s on both sides' % dial_r) if dial_r == dial_w else
          o.fail('the reader\'s csv dialect %s differs from the writer\'s %s: fields the writer leaves unquoted (ids with leading blanks, '
                 'quotes, ...) come back altered' % (dial_r, dial_w)))
+
 
 
 def rule_time_text(ck):
@@ -240,6 +249,25 @@ def rule_forms(ck):
     txt = ' '.join(u(s) for s in g.node.body)
     good = 'col_list = list(cls.dtype.names)' in txt and 'df[col_list].to_records(index=False)' in txt and 'dtype=cls.dtype' in txt and 'catalog_id=catalog_id' in txt
     (o.ok() if good else o.fail('from_dataframe does not select exactly the dtype columns as records / loses the catalog id'))
+    # row order and row set: between the event array and the frame (and back) nothing may reorder, drop or repeat rows
+    REORDER = {'sort_values', 'sort_index', 'sort', 'sample', 'drop_duplicates', 'dropna', 'groupby', 'reindex', 'nlargest', 'nsmallest',
+               'query', 'head', 'tail', 'drop', 'unique', 'shuffle', 'argsort', 'take', 'truncate', 'resample', 'merge', 'join', 'explode'}
+    KEEP = {'set_index', 'reset_index', 'copy', 'assign', 'rename', 'astype', 'map', 'to_records', 'DataFrame', 'ascontiguousarray',
+            'asarray', 'array'}
+    for fn in (d, g, P.func(A + 'to_dict'), P.func(A + 'from_dict')):
+        o = ck.ob('C14-D7.roworder', fn, 'no call reorders or drops event rows', fn.node)
+        bad = []
+        for c in all_nodes(fn):
+            if isinstance(c, ast.Call):
+                nm = c.func.attr if isinstance(c.func, ast.Attribute) else (c.func.id if isinstance(c.func, ast.Name) else None)
+                full = callee(P, fn, c) or ''
+                if nm in REORDER or full in ('builtins.sorted', 'builtins.reversed', 'builtins.set', 'numpy.sort', 'numpy.unique', 'numpy.argsort',
+                                             'numpy.flip', 'numpy.random.shuffle', 'numpy.random.permutation'):
+                    bad.append(c)
+            if isinstance(c, ast.Subscript) and isinstance(c.slice, ast.Slice) and c.slice.step is not None:
+                bad.append(c)
+        (o.fail('`%s` changes the order or the set of rows: the catalog read back no longer lists the same events in the same order'
+                % u(bad[0])[:90]) if bad else o.ok('only column stores and order-preserving conversions'))
     j = P.func(A + 'write_json')
     o = ck.ob('C14-D7.json', j, 'json.dump(self.to_dict())', j.node)
     dumps = calls_in(P, j, 'json.dump')
